@@ -900,7 +900,7 @@ func (view *View) convertRecordValuesToRecordSet(ctx context.Context, fields []p
 		return -1
 	}
 
-	fieldIndices, err := view.FieldIndices(fields)
+	fieldIndices, err := view.UniqueFieldIndices(fields)
 	if err != nil {
 		return nil, err
 	}
@@ -940,7 +940,7 @@ func (view *View) insert(ctx context.Context, fields []parser.QueryExpression, r
 }
 
 func (view *View) replace(ctx context.Context, flags *option.Flags, fields []parser.QueryExpression, recordValues [][]value.Primary, keys []parser.QueryExpression) (int, error) {
-	fieldIndices, err := view.FieldIndices(fields)
+	fieldIndices, err := view.UniqueFieldIndices(fields)
 	if err != nil {
 		return 0, err
 	}
@@ -949,7 +949,7 @@ func (view *View) replace(ctx context.Context, flags *option.Flags, fields []par
 		fieldIndicesMap[uint(v)] = true
 	}
 
-	keyIndices, err := view.FieldIndices(keys)
+	keyIndices, err := view.UniqueFieldIndices(keys)
 	if err != nil {
 		return 0, err
 	}
@@ -1234,6 +1234,26 @@ func (view *View) FieldIndex(fieldRef parser.QueryExpression) (int, error) {
 		}
 	}
 	return idx, err
+}
+
+// UniqueFieldIndices returns the indices of the fields, or an error if a field is specified more than once.
+func (view *View) UniqueFieldIndices(fields []parser.QueryExpression) ([]int, error) {
+	indices, err := view.FieldIndices(fields)
+	if err != nil {
+		return nil, err
+	}
+	specified := make(map[int]bool, len(indices))
+	for i, idx := range indices {
+		if specified[idx] {
+			name := parser.Identifier{Literal: fields[i].String()}
+			if base := fields[i].GetBaseExpr(); base != nil {
+				name.BaseExpr = base
+			}
+			return nil, NewDuplicateFieldNameError(name)
+		}
+		specified[idx] = true
+	}
+	return indices, nil
 }
 
 func (view *View) FieldIndices(fields []parser.QueryExpression) ([]int, error) {
